@@ -27,7 +27,23 @@ INIT = dict(
     ensures={'stored-frame-is-the-selection-of-the-domain-columns-in-domain-order': 'same(self.df, df.loc[:, domain.attrs])',
              'domain-and-weights-stored-as-given': 'same(self.domain, domain) and same(self.weights, weights)'},
 )
-ITEMS = [('src/mbi/dataset.py', 'Dataset.project', PROJECT), ('src/mbi/dataset.py', 'Dataset.__init__', INIT)]
+# Dataset.datavector: the records are binned, column p against the integer edges 0, 1, ..., shape[p] of attribute p (so every code
+# 0..shape[p]-1 has its own cell whether or not it occurs in the data), weighted by the dataset's weights.  That numpy.histogramdd
+# with these edges counts code c in cell c (the last bin is closed) is the extern contract; the bounded tier exercises it.
+DATAVECTOR = dict(
+    params=dict(self='obj:Dataset', flatten='bool'), requires=[], sequences=True,
+    attr_types={('Dataset', 'domain'): 'obj:Domain', ('Domain', 'shape'): 'seq:int', ('Domain', 'attrs'): 'seq:obj'},
+    uses_locals=['ans'], pure={'np.histogramdd': 'obj', '.flatten': 'obj'},
+    sites=[dict(func='np.histogramdd', arg=0, name='records-are-the-stored-frame', spec='same(__arg, self.df.values)'),
+           dict(func='np.histogramdd', arg=1, kw='bins', name='bin-edges-are-the-integers-0-to-size-for-every-attribute',
+                spec='len(__arg) == len(self.domain.shape) and '
+                     'forall(lambda p: range_lo(__arg[p]) == 0 and range_hi(__arg[p]) == self.domain.shape[p] + 1, 0, len(self.domain.shape))'),
+           dict(func='np.histogramdd', arg='weights', name='weighted-by-the-dataset-weights', spec='same(__arg, self.weights)')],
+    ensures={'one-histogram': 'ghost("n_site_bin-edges-are-the-integers-0-to-size-for-every-attribute") == 1',
+             'the-histogram-counts-are-returned': 'same(result, ans.flatten()) if flatten else same(result, ans)'},
+)
+ITEMS = [('src/mbi/dataset.py', 'Dataset.project', PROJECT), ('src/mbi/dataset.py', 'Dataset.__init__', INIT),
+         ('src/mbi/dataset.py', 'Dataset.datavector', DATAVECTOR)]
 
 
 def hooks_for(c):
